@@ -97,6 +97,14 @@ func (g *GhostDB) linBuiltin(env *SpecEnv, st *State, name string, args []TV) (T
 		return TV{VScalar{t}, types.Typ[types.Int64]}, true
 	case name == "T" && args == nil:
 		return TV{VScalar{env.lin.T}, types.Typ[types.Int64]}, true
+	case name == "Tx" && args == nil:
+		// the clock at the linearization transaction: T >= Tx says the clock value the answer is based on
+		// was observed at or after that transaction (a value captured before it would be stale)
+		tx := env.lin.Tx
+		if tx.S == "" {
+			tx = env.lin.T
+		}
+		return TV{VScalar{tx}, types.Typ[types.Int64]}, true
 	case strings.HasPrefix(name, "pre_") && len(args) == 1:
 		tn := strings.TrimPrefix(name, "pre_")
 		tv := env.lin.Pre[tn]
@@ -122,6 +130,7 @@ func (g *GhostDB) linBuiltin(env *SpecEnv, st *State, name string, args []TV) (T
 type linPoint struct {
 	Pre, Post map[string]*TableVer
 	T         Term
+	Tx        Term // the clock value at which the linearization transaction itself was submitted
 	Label     string
 }
 
@@ -143,7 +152,9 @@ func (g *GhostDB) evalLinearizes(env *SpecEnv, st *State, e ast.Expr) TV {
 		}
 		g.advanceClock(st)
 		st.assume(Le(t, g.now))
-		lp := &linPoint{Pre: pre, Post: post, T: t, Label: "callee"}
+		tx := g.x.sym.Fresh("Tx.callee", SInt)
+		st.assume(Le(tx, g.now))
+		lp := &linPoint{Pre: pre, Post: post, T: t, Tx: tx, Label: "callee"}
 		g.calleeLin = append(append([]*linPoint(nil), g.calleeLin...), lp)
 		save := env.lin
 		env.lin = lp
@@ -168,7 +179,7 @@ func (g *GhostDB) evalLinearizes(env *SpecEnv, st *State, e ast.Expr) TV {
 		}
 		for _, t := range times {
 			save := env.lin
-			env.lin = &linPoint{Pre: y.Pre, Post: y.Post, T: t}
+			env.lin = &linPoint{Pre: y.Pre, Post: y.Post, T: t, Tx: y.Now}
 			r := env.term(env.eval(e))
 			env.lin = save
 			alts = append(alts, r)
@@ -185,7 +196,7 @@ func (g *GhostDB) evalLinearizes(env *SpecEnv, st *State, e ast.Expr) TV {
 	// request rejected before the first submission) linearizes at entry
 	if len(alts) == 0 {
 		save := env.lin
-		env.lin = &linPoint{Pre: g.entry, Post: g.entry, T: g.now0}
+		env.lin = &linPoint{Pre: g.entry, Post: g.entry, T: g.now0, Tx: g.now0}
 		r := env.term(env.eval(e))
 		env.lin = save
 		alts = append(alts, r)
